@@ -155,19 +155,29 @@ def np_small():
 
 
 def find_table(tree, fi):
-    """the 8x2x12 state table used by _hilbert3d: (values, shape, order)"""
-    cands = []
-    nodes = list(ast.walk(fi.node)) + [n for n in ast.walk(fi.module.tree) if isinstance(n, ast.Assign)]
-    for n in nodes:
-        if isinstance(n, ast.Call) and isinstance(n.func, ast.Attribute) and n.func.attr == "reshape":
-            lists = [x for x in ast.walk(n.func.value) if isinstance(x, ast.List) and len(x.elts) == 192]
-            if lists:
-                vals = [const_value(e) for e in lists[0].elts]
-                a0 = n.args[0] if n.args else None
-                shape = tuple(const_value(e) for e in a0.elts) if isinstance(a0, (ast.Tuple, ast.List)) else tuple(const_value(e) for e in n.args)
-                order = next((const_value(k.value) for k in n.keywords if k.arg == "order"), "C")
-                cands.append((vals, shape, order, n))
-    return cands[0] if cands else None
+    """the state table _hilbert3d actually INDEXES with (digit, slot, state): obtained by interpreting the function once (wherever the
+    table is built: in the function, in a helper, at module level) with a recording table model -> the Table, or None"""
+    used = []
+
+    class RecTable(Table):
+        def reshape(self, *shape, order="C"):
+            if len(shape) == 1 and isinstance(shape[0], (tuple, list)):
+                shape = tuple(shape[0])
+            return RecTable(self.vals, tuple(shape), order)
+
+        def __getitem__(self, idx):
+            if isinstance(idx, tuple) and len(idx) == 3 and self not in used:
+                used.append(self)
+            return Table.__getitem__(self, idx)
+    ext = np_small()
+    mk = lambda x, *a, **k: RecTable(x) if isinstance(x, list) and len(x) > 16 else x
+    ext["numpy.array"] = ext["numpy.asarray"] = mk
+    try:
+        ModelEval(tree, fi, {}, {"ext": ext}).invoke(fi, [1, 0, 1, 1], {}, None)
+    except (Raised, ProgramRaised):
+        pass
+    tabs = [t for t in used if t.shape is not None and len(t.vals) == 192]
+    return tabs[0] if len(tabs) == 1 else None
 
 
 def automaton_key(T, x, y, z, L):
